@@ -627,8 +627,12 @@ def enumerate_histories(regs, start, fam, depth, rich_first):
 @S.item(
     "history.exhaustive",
     site=SITE + " (add, insert_at, remove_op, replace_op, unwrap_nodes, group_one_qubit_gates, remove_identity, add_*_register, copy)",
-    bound="every edit history of length <= 3 (quick: <= 2, plus length 3 from the empty start) offered by the edit alphabet "
-    "options() from the 4 start circuits STARTS on <= 3 quantum registers; WF + view update checked after every edit",
+    bound="every edit history offered by the edit alphabet options() (all add/insert positions, every removable node, class "
+    "replacements, unwrap, group, remove_identity, register additions, copy; next-free and gapped register indices): "
+    "length <= 2 from each of the 4 start circuits STARTS, families A (with MeasurementZ) and B, first edit over the rich "
+    "alphabet for the two small starts (thorough: all four); length <= 3 from the empty (1e,1p,1c) circuit, family B "
+    "(thorough: also family A, and length <= 3 from the starts [H e0; CNOT e0->p0] on (2e,1p,1c), [measure-reset e0->p1] on "
+    "(1e,2p,1c), [I e0; H e0] on (1e,1p,0c)); quick 111 k, thorough 1.7 M histories; WF + view update checked after every edit",
     exhaustive=True,
     clause="after any sequence of edits: DAG, sources/sinks, wires, indexes, sequence() topological, register counts",
 )
@@ -828,7 +832,7 @@ def run(tier, seed):
     if thorough:
         hs += enumerate_histories((1, 1, 1), [], "A", 3, rich_first=False)
         hs += enumerate_histories((2, 1, 1), STARTS[1][1][:2], "B", 3, rich_first=False)
-        hs += enumerate_histories((1, 2, 1), STARTS[2][1][2:], "A", 3, rich_first=False)
+        hs += enumerate_histories((1, 2, 1), STARTS[2][1][3:], "A", 3, rich_first=False)
         hs += enumerate_histories((1, 1, 0), STARTS[3][1][:2], "B", 3, rich_first=False)
     seen = set()
     uniq = []
